@@ -661,7 +661,7 @@ def run_history(cfg, hist):
 def ramp_histories(m):
     """Sweep: the single operation set_progress(s) for every s in 0..max+2 (every (step, max) pair drawn directly).
     Finish probes: start, advance(k) after each clock advance, finish / advance(k), finish, display.
-    Ramp: start, then advance by the stride until the maximum is passed (unknown maximum: 12 steps), then finish."""
+    Ramp: start, then advance by the stride until the maximum is passed (unknown maximum: 64 steps), then finish."""
     out = [[(0, "set_progress", s)] for s in range(0, (m if m else 12) + 3)]
     # three-operation histories around finish (also covered by the BFS parts; kept here so that they are executed even
     # when a BFS share is cut short by another defect, and reported with the shortest history)
@@ -671,7 +671,9 @@ def ramp_histories(m):
             out.append([(dt, "advance", k), (0, "finish", None), (0, "display", None)])
     for stride in (1, 3):
         for dt in CLOCKS:
-            n = (m if m else 12) // stride + 2
+            # unknown maximum: the bar position cycles with the number of frames written (it wraps after about 15 frames
+            # at width 28), so the ramp must be long enough to go round several times
+            n = (m // stride + 2) if m else 64
             out.append([(0, "start", None)] + [(dt, "advance", stride)] * n + [(dt, "finish", None)])
     return out
 
